@@ -305,7 +305,7 @@ pub fn c02(args: &Args, reg: &[TypeEntry], log: &mut Log) {
                         Verdict::Fail(f) => {
                             if fails.len() < 6 {
                                 fails.push(json!({"kind": kind, "stage": "reserialize", "witness": w, "text": text,
-                                    "reserialized": back, "path": f.path, "reason": f.reason, "in_decl": f.in_decl}));
+                                    "reserialized": back, "path": f.path, "reason": f.reason, "in_decl": f.in_decl, "also": f.also}));
                             }
                         }
                         Verdict::Inconclusive(r) => inconclusive.push(json!({"stage": "reserialize", "reason": r})),
